@@ -119,6 +119,7 @@ impl EnvX {
     /// a type name usable in casts, constructors, parameters: numeric types and structs
     fn spell_base(&self, l: Layer) -> Option<String> {
         match l {
+            Layer::Enum(k) => Some(format!("E{}", k)),
             Layer::Other(k) => match self.others.get(k as usize)? {
                 OtherDef::Struct(_) => Some(format!("S{}", k)),
                 OtherDef::Array(..) => None,
@@ -314,8 +315,41 @@ impl EnvX {
     }
 
     /// the RSSL program; `body = None` gives the declarations alone
+    fn max_enum(&self) -> Option<u32> {
+        let mut m: Option<u32> = None;
+        let mut note = |l: Layer| {
+            if let Layer::Enum(k) = l {
+                m = Some(m.map_or(k, |x: u32| x.max(k)));
+            }
+        };
+        for v in &self.base.vars {
+            note(v.layer);
+        }
+        for f in &self.base.funcs {
+            note(f.ret.layer);
+            for p in &f.params {
+                note(p.ty.layer);
+            }
+        }
+        for d in &self.others {
+            match d {
+                OtherDef::Struct(ms) => ms.iter().for_each(|x| note(x.1.layer)),
+                OtherDef::Array(t, _) => note(t.layer),
+            }
+        }
+        if let Some(t) = self.base.ret {
+            note(t.layer);
+        }
+        m
+    }
+
     pub fn program(&self, body: Option<&Sx>) -> Option<String> {
         let mut s = String::new();
+        if let Some(m) = self.max_enum() {
+            for k in 0..=m {
+                s.push_str(&format!("enum E{} {{ E{}_A, E{}_B, E{}_C }};\n", k, k, k, k));
+            }
+        }
         for (k, d) in self.others.iter().enumerate() {
             if let OtherDef::Struct(ms) = d {
                 s.push_str(&format!("struct S{} {{\n", k));
@@ -1084,6 +1118,11 @@ pub fn base_envx(ret: Option<Ty>) -> EnvX {
     vars.push(cst(plain(Layer::Other(1)))); // 24 const S1
     vars.push(Ty { mods: Mods(2), layer: Layer::Vector(S_FLOAT, 3) }); // 25 volatile float3
     vars.push(Ty { mods: Mods(4), layer: Layer::Matrix(S_FLOAT, 2, 2) }); // 26 row_major float2x2
+    vars.push(plain(Layer::Vector(S_BOOL, 3))); // 27 bool3
+    vars.push(plain(Layer::Matrix(S_BOOL, 2, 2))); // 28 bool2x2
+    vars.push(plain(Layer::Enum(0))); // 29 E0
+    vars.push(plain(Layer::Enum(1))); // 30 E1
+    vars.push(cst(plain(Layer::Enum(0)))); // 31 const E0
     let mut funcs = base_funcs();
     // f6: returns a float3, f7: returns S0 by value (rvalue composites), f8: out float3, f9: inout float
     funcs.push(Func { name: 6, non_default: 0, ret: f3, params: vec![] });
